@@ -12,16 +12,17 @@ func extraMain(cmd string, args []string) bool {
 }
 
 var extraCmds = map[string]func([]string){
-	"logbuf":  records.LogbufMain,
-	"plan":    records.PlanMain,
-	"merge":   records.MergeMain,
-	"load":    records.LoadMain,
-	"env":     records.EnvMain,
-	"probe":   records.ProbeMain,
-	"scale":   records.ScaleMain,
-	"ordshut": records.OrdShutMain,
-	"output":  records.OutputMain,
-	"api":     records.ApiMain,
-	"osstop":  records.OsstopMain,
-	"conc":    records.ConcMain,
+	"logbuf":       records.LogbufMain,
+	"logbufreplay": records.LogbufReplayMain,
+	"plan":         records.PlanMain,
+	"merge":        records.MergeMain,
+	"load":         records.LoadMain,
+	"env":          records.EnvMain,
+	"probe":        records.ProbeMain,
+	"scale":        records.ScaleMain,
+	"ordshut":      records.OrdShutMain,
+	"output":       records.OutputMain,
+	"api":          records.ApiMain,
+	"osstop":       records.OsstopMain,
+	"conc":         records.ConcMain,
 }
